@@ -258,6 +258,37 @@ Section CursorProofs.
     - rewrite (rest_at_advance _ _ _ _ Hr). rewrite Hr. apply unlimited_app. exact Hns.
   Qed.
 
+  (* COUNT with the same cursor and LIMIT = the number of items the item outputs return *)
+  Lemma count_iterate_items limit offset : forall src count (w : sw (A := A)),
+    sw_hit w = false -> sw_items w < limit -> sw_items w = N.of_nat (length (sw_filled w)) ->
+    count_iterate test stop limit offset src count (sw_items w) =
+    N.of_nat (length (sw_filled (iterate limit offset src count w))).
+  Proof.
+    induction src as [|o rest IH]; intros count w Hh Hi Hl; cbn [Cursor.count_iterate Cursor.iterate]; [exact Hl|].
+    destruct (count + 1 <=? offset); [now apply IH|].
+    rewrite next_step_eq.
+    destruct (stop o); [exact Hl|].
+    unfold push_object. cbn [sw_step sw_items sw_iters sw_hit sw_filled].
+    destruct (test o).
+    - destruct (sw_items w + 1 =? limit) eqn:E.
+      + apply N.eqb_eq in E. assert (F : (sw_items w + 1 <? limit) = false) by (apply N.ltb_ge; lia).
+        rewrite F. cbn [sw_filled]. rewrite app_length. cbn [length]. lia.
+      + apply N.eqb_neq in E. assert (F : (sw_items w + 1 <? limit) = true) by (apply N.ltb_lt; lia).
+        rewrite F.
+        apply (IH (count + 1) (mkSW (sw_iters w + 1) (sw_items w + 1) (sw_hit w) (sw_filled w ++ [o]))); cbn [sw_hit sw_items sw_filled].
+        * exact Hh.
+        * lia.
+        * rewrite app_length. cbn [length]. lia.
+    - apply (IH (count + 1) (sw_step w 1)); assumption.
+  Qed.
+
+  Theorem count_eq_items src c limit :
+    1 <= limit -> count_query test stop src c limit = N.of_nat (length (fst (page src c limit))).
+  Proof.
+    intros Hl. unfold count_query, Cursor.page. cbn [fst].
+    apply (count_iterate_items limit c src 0 (sw_step (mkSW 0 0 false []) c)); cbn; try reflexivity. lia.
+  Qed.
+
   Lemma eff_limit_pos limit : 1 <= eff_limit limit.
   Proof. unfold eff_limit, limit_items. destruct (limit =? 0) eqn:E; [lia|]. apply N.eqb_neq in E. lia. Qed.
 End CursorProofs.
@@ -416,4 +447,38 @@ Proof.
   exists ps. split; [exact H1|]. rewrite H2. unfold unlimited. f_equal.
   apply (until_stop_monotone _ _ _ Hs).
   unfold nearby_stop. intros x y Hxy Hx. lia.
+Qed.
+
+(* ---- the COUNT shortcut (no filter, no early exit): index size minus cursor, capped by LIMIT ---- *)
+Ltac ltb_cases :=
+  repeat match goal with
+  | |- context [?a <? ?b] => destruct (N.ltb_spec a b)
+  | |- context [?a <=? ?b] => destruct (N.leb_spec a b)
+  | H : context [?a <? ?b] |- _ => destruct (N.ltb_spec a b)
+  end.
+
+Lemma count_iterate_all {A} limit offset : forall (src : list A) count n,
+  n < limit ->
+  count_iterate (fun _ => true) (fun _ => false) limit offset src count n =
+  (if limit <? n + (N.of_nat (length src) - (offset - count)) then limit
+   else n + (N.of_nat (length src) - (offset - count))).
+Proof.
+  induction src as [|o rest IH]; intros count n Hn; cbn [count_iterate].
+  - cbn [length]. ltb_cases; lia.
+  - destruct (N.leb_spec (count + 1) offset) as [E|E].
+    + rewrite IH by exact Hn. cbn [length]. ltb_cases; lia.
+    + destruct (N.ltb_spec (n + 1) limit) as [F|F].
+      * rewrite IH by exact F. cbn [length]. ltb_cases; lia.
+      * cbn [length]. ltb_cases; lia.
+Qed.
+
+Theorem count_shortcut_exact {A} (src : list A) cursor limit :
+  1 <= limit ->
+  count_shortcut src cursor limit = count_query (fun _ => true) (fun _ => false) src cursor limit.
+Proof.
+  intros Hl. unfold count_query, count_shortcut. rewrite count_iterate_all by lia. cbn zeta.
+  set (t := N.of_nat (length src)).
+  destruct (N.leb_spec t cursor); destruct (N.ltb_spec limit (0 + (t - (cursor - 0)))).
+  all: try (destruct (N.ltb_spec limit 0); lia).
+  all: destruct (N.ltb_spec limit (t - cursor)); lia.
 Qed.
